@@ -362,6 +362,22 @@ func (it *Interp) copySlice(dst, src Value) int {
 func (it *Interp) reinterpret(v Value, t types.Type) Value {
 	k, w := basicInfo(t)
 	switch x := v.(type) {
+	case NumSlice:
+		// *(*string)(unsafe.Pointer(&byteSlice))
+		if k == kString && x.esz == 1 {
+			if x.buf == nil || x.len == 0 {
+				return ""
+			}
+			return normStr(SymStr{x.buf, x.off, x.len})
+		}
+	case string, SymStr:
+		// *(*[]byte)(unsafe.Pointer(&str))
+		if sl, ok := t.Underlying().(*types.Slice); ok {
+			if _, ew := basicInfo(sl.Elem()); ew == 8 {
+				b, o, n := strToBuf(x)
+				return NumSlice{buf: b, off: o, len: n, cap: n, esz: 1}
+			}
+		}
 	case float64:
 		if k == kInt || k == kUint {
 			return math.Float64bits(x) & mask(w)
